@@ -1,5 +1,6 @@
 import FiberModel.C05.Lemmas
 import FiberModel.C05.SchedLemmas
+import FiberModel.C05.Values
 import FiberModel.C05.Facts
 /-
 C05 — property theorems.
@@ -18,12 +19,14 @@ open B
 def constantFields : List String := ["app", "req", "res"]
 
 /-- A field of the pooled context cannot carry anything from one request into the next when it is
-    assigned by `Reset`, or emptied by `release`, or constant, or `values` (overwritten before any
-    read, `values_overwritten_before_read`), or the flash slice (re-sliced by `release`, its leftover
+    assigned by `Reset`, or emptied by `release`, or constant, or `values` with the matcher shaped so
+    that slots are written before they are read (`values_slots_independent_of_leftovers`), or the flash slice (re-sliced by `release`, its leftover
     elements wiped by the decoder before it decodes, `flash_decode_independent_of_leftovers`). -/
 def FieldFact.accounted (lc : Lifecycle) (f : FieldFact) : Bool :=
-  f.reset.overwrites || f.release.overwrites || constantFields.contains f.name || f.name == "values" ||
+  f.reset.overwrites || f.release.overwrites || constantFields.contains f.name ||
+  (f.name == "values" && lc.starWritesSlot0 && lc.getMatchWritesBeforeRead && lc.paramsReadsRouteSlots) ||
   (f.name == "flashMessages" && emptiesSlice f.release && lc.flashDecodeWipes)
+  -- (a flash slice set to nil by `release` is covered by `f.release.overwrites`)
 
 /-- **Obligation over the regenerated tables.** Every field of `DefaultCtx` is accounted for, every
     field of `Redirect` is reset by `Redirect.release`, and the digest the model runs with is in order
@@ -38,6 +41,22 @@ theorem fields_reset_or_overwritten :
     array (`old`) is never returned. -/
 theorem values_overwritten_before_read (vs old : List Bytes) :
     readParams (writeValues vs old) vs.length = vs := writeValues_params vs old
+
+/-- The same for the real matcher's shape (path.go `getMatch` as a loop over segments with everything it
+    computes from the current request left abstract, `Values.lean`; the shape itself is a regenerated
+    fact: `getMatchWritesBeforeRead`, `starWritesSlot0`, `paramsReadsRouteSlots`): on the same request, two
+    arrays with different leftovers lead to the same match decision and, after a match, to the same
+    values in all slots of the route's parameters. -/
+theorem values_slots_independent_of_leftovers (m : Matcher) (segs : List Seg) (path : Bytes) (a a' : List Bytes)
+    (hlen : a.length = a'.length) (hcap : nParams segs ≤ a.length) :
+    (getMatch m segs path a 0).isSome = (getMatch m segs path a' 0).isSome ∧
+    ∀ r r', getMatch m segs path a 0 = some r → getMatch m segs path a' 0 = some r' →
+      readSlots r (nParams segs) = readSlots r' (nParams segs) :=
+  getMatch_slots_indep m segs path a a' hlen hcap
+
+/-- `/q/:x?` on the request `/q` over an array that still holds `alice`: the slot is overwritten with "" -/
+example : (getMatch demoMatcher [.const (b "/q/"), .param 0] (b "/q") [b "alice", b "secret"] 0).map (readSlots · 1)
+    = some [[]] := by decide
 
 /-- With the decoder's wipe in place, what the flash readers return is a function of the cookie
     alone: two slices with the same visible part and ANY leftovers in their spare capacity decode
@@ -168,7 +187,23 @@ theorem history_as_schedule {F : RFacts} (ok : F.ok = true) (hist : List (Req ×
     simp only [histEvents, runSched_append, step_as_schedule ok, runHistory]
     exact ih _ _ _
 
-/-! ### Non-vacuity and sharpness -/
+/-! ### Non-vacuity and sharpness
+
+The examples run on `refFacts`, a fixed digest (what the tables say at the time of writing), so that they
+do not depend on the regenerated tables: a harmless refactoring of `Reset` / `release` must not break an
+example. -/
+
+def refFacts : RFacts :=
+  { rFasthttp := true, rBaseURI := true, rPathOriginal := true, rPath := true, rDetectionPath := true,
+    rTreePathHash := true, rIndexRoute := true, rIndexHandler := true, rMethodInt := true, rMatched := true,
+    lRoute := true, lBind := true, lRedirect := true, lViewBind := true, lFlash := .reslice0, lFasthttp := true,
+    dMessages := .reslice0, dStatus := true,
+    lc := { acquireResets := true, releaseBeforePut := true, handlerDefersRelease := true,
+            redirectReleaseBeforePut := true, ctxReleaseReturnsRedirect := true, flashDecodeWipes := true,
+            flashDropsOnError := true, errorHandlerDefersRelease := true, poolOpsConfined := true,
+            starWritesSlot0 := true, getMatchWritesBeforeRead := true, paramsReadsRouteSlots := true } }
+
+example : refFacts.ok = true := by decide
 
 /-- A history that plants state in every channel the property names (view binding, locals, flash
     messages, redirect messages + status, binder mode, base URL, route parameters), then the classic
@@ -183,34 +218,39 @@ def demoProbe : Req :=
   ⟨b "GET", b "/q", b "h.example.com", [(b "n", b "x")], some [0x91, 0x80], 0, [.ob, .bq, .to (b "/t")]⟩
 
 /-- the probe sees one all-empty message, no parameters, no bindings, status 302, no flash cookie of its own -/
-example : (probeAfter theFacts demoHist demoProbe ⟨0, 0⟩).map (fun o => (o.resp.status, o.resp.setFlash))
+example : (probeAfter refFacts demoHist demoProbe ⟨0, 0⟩).map (fun o => (o.resp.status, o.resp.setFlash))
     = some (302, .expire) := by decide
-example : (probeAfter theFacts demoHist demoProbe ⟨0, 0⟩).map (fun o => o.seen.map (·.msgs)) = some (some [Msg.zero]) := by decide
-example : (probeAfter theFacts demoHist demoProbe ⟨0, 0⟩).map (fun o => o.seen.map (·.view)) = some (some []) := by decide
-example : (probeAfter theFacts demoHist demoProbe ⟨0, 0⟩).map (fun o => o.seen.map (·.params)) = some (some [[]]) := by decide
+example : (probeAfter refFacts demoHist demoProbe ⟨0, 0⟩).map (fun o => o.seen.map (·.msgs)) = some (some [Msg.zero]) := by decide
+example : (probeAfter refFacts demoHist demoProbe ⟨0, 0⟩).map (fun o => o.seen.map (·.view)) = some (some []) := by decide
+example : (probeAfter refFacts demoHist demoProbe ⟨0, 0⟩).map (fun o => o.seen.map (·.params)) = some (some [[]]) := by decide
 
-/-- Sharpness: the same history leaks when the table is NOT in order. Without the decoder's wipe the
-    probe's empty message shows the previous request's flash message … -/
-example : (probeAfter { theFacts with lc := { theFacts.lc with flashDecodeWipes := false } } demoHist demoProbe ⟨0, 0⟩).map
+/-- Sharpness: the same history leaks when the table is NOT in order. Without the decoder's wipe (the code
+    before fix cd65980, finding F1) the probe's empty message `91 80` shows the previous request's flash
+    message … -/
+theorem old_flash_decode_leaks_previous_message :
+    (probeAfter { refFacts with lc := { refFacts.lc with flashDecodeWipes := false } } demoHist demoProbe ⟨0, 0⟩).map
       (fun o => o.seen.map (·.msgs))
-    = some (some [⟨b "k", b "v", 0x21, false⟩]) := by decide
+    = some (some [⟨b "k", b "v", 0x21, false⟩]) ∧
+    (probeFresh { refFacts with lc := { refFacts.lc with flashDecodeWipes := false } } demoProbe).map
+      (fun o => o.seen.map (·.msgs))
+    = some (some [Msg.zero]) := by decide
 
 /-- … without `release` clearing the view map the probe renders the previous user's binding … -/
-example : (probeAfter { theFacts with lViewBind := false } demoHist demoProbe ⟨0, 0⟩).map (fun o => o.seen.map (·.view))
+example : (probeAfter { refFacts with lViewBind := false } demoHist demoProbe ⟨0, 0⟩).map (fun o => o.seen.map (·.view))
     = some (some [(b "user", b "alice")]) := by decide
 
 /-- … without `Redirect.release` resetting the pooled object the probe redirects with the previous
     request's status and flash message … -/
-example : (probeAfter { theFacts with dStatus := false, dMessages := .none } demoHist demoProbe ⟨0, 0⟩).map
+example : (probeAfter { refFacts with dStatus := false, dMessages := .none } demoHist demoProbe ⟨0, 0⟩).map
       (fun o => (o.resp.status, o.resp.setFlash))
     = some (301, .msgs [⟨b "k", b "v", 5, false⟩]) := by decide
 
 /-- … without `Reset` clearing the cached base URL the probe is told the previous request's host … -/
-example : (probeAfter { theFacts with rBaseURI := false } demoHist demoProbe ⟨0, 0⟩).map (fun o => o.seen.map (·.base))
+example : (probeAfter { refFacts with rBaseURI := false } demoHist demoProbe ⟨0, 0⟩).map (fun o => o.seen.map (·.base))
     = some (some (b "http://admin.internal")) := by decide
 
 /-- … and without `release` dropping the Bind object the probe inherits automatic error handling (400). -/
-example : (probeAfter { theFacts with lBind := false, lRedirect := false } demoHist ⟨b "GET", b "/q", b "h.example.com", [(b "n", b "x")], none, 0, [.bq]⟩ ⟨0, 0⟩).map
+example : (probeAfter { refFacts with lBind := false, lRedirect := false } demoHist ⟨b "GET", b "/q", b "h.example.com", [(b "n", b "x")], none, 0, [.bq]⟩ ⟨0, 0⟩).map
       (fun o => o.resp.status)
     = some 400 := by decide
 
@@ -232,17 +272,17 @@ def demoSched : List Ev :=
    .act 1 0, .act 1 0, .act 1 0, .done 1 0, .gc 0 7, .act 2 0, .act 2 0, .act 2 0, .done 2 0]
 
 /-- both requests finish, B second -/
-example : ((runSched theFacts CWorld.empty demoSched).finished.map (·.1)) = [2, 1] := by decide
+example : ((runSched refFacts CWorld.empty demoSched).finished.map (·.1)) = [2, 1] := by decide
 
 /-- B got A's Redirect object (the pool is empty again while B holds it), and still redirects with 302
     and no flash cookie -/
-example : (runSched theFacts CWorld.empty (demoSched.take 13)).reds.length = 0 ∧
-    (runSched theFacts CWorld.empty (demoSched.take 12)).reds.length = 1 := by decide
-example : (obsOf (runSched theFacts CWorld.empty demoSched) 2).map (fun o => (o.resp.status, o.resp.setFlash))
+example : (runSched refFacts CWorld.empty (demoSched.take 13)).reds.length = 0 ∧
+    (runSched refFacts CWorld.empty (demoSched.take 12)).reds.length = 1 := by decide
+example : (obsOf (runSched refFacts CWorld.empty demoSched) 2).map (fun o => (o.resp.status, o.resp.setFlash))
     = some (302, .none) := by decide
 
 /-- Sharpness: the same schedule leaks when `Redirect.release` does not reset the pooled object -/
-example : (obsOf (runSched { theFacts with dStatus := false, dMessages := .none } CWorld.empty demoSched) 2).map
+example : (obsOf (runSched { refFacts with dStatus := false, dMessages := .none } CWorld.empty demoSched) 2).map
       (fun o => (o.resp.status, o.resp.setFlash))
     = some (301, .msgs [⟨b "k", b "v", 5, false⟩]) := by decide
 
